@@ -54,6 +54,11 @@ func initCommand(cmd *cobra.Command, args []string) (string, []string, error) {
 		return "", nil, fmt.Errorf("write in place cannot be used with split file")
 	}
 
+	if frontMatter == "process" && splitFileExp != "" {
+		// the text after the front matter has no result node to name a split file after
+		return "", nil, fmt.Errorf("front matter processing cannot be used with split file")
+	}
+
 	if nullInput && len(args) > 0 {
 		return "", nil, fmt.Errorf("cannot pass files in when using null-input flag")
 	}
